@@ -247,8 +247,10 @@ impl<C: Suite> Subject<C> for SecretKeyEnum {
         let mut v = Vec::new();
         for (n, s) in gen::edge_scalars(rng) {
             let b = s.to_be_bytes();
-            v.push((format!("G1/{n}"), SecretKeyEnum::G1(Option::from(SecretKey::from_be_bytes(&b)).expect("sk"))));
-            v.push((format!("G2/{n}"), SecretKeyEnum::G2(Option::from(SecretKey::from_be_bytes(&b)).expect("sk"))));
+            // built from the field element directly, not through a library importer
+            let _ = b;
+            v.push((format!("G1/{n}"), SecretKeyEnum::G1(SecretKey(sc_from_rs::<Bls12381G1Impl>(&s)))));
+            v.push((format!("G2/{n}"), SecretKeyEnum::G2(SecretKey(sc_from_rs::<Bls12381G2Impl>(&s)))));
         }
         v
     }
